@@ -89,7 +89,7 @@ class Gen:
         if c < 0.76:
             return "(intmin)"
         if c < 0.88:
-            return "(dbl %s)" % r.choice(["1.5", "0.1", "2.5e3", "1e-3", "3.0", "12.75E+2", "7e0"])
+            return "(dbl %s)" % r.choice(["1.5", "0.1", "2.5e3", "1e-3", "3.0", "12.75E+2", "7e0", "0.00001", "1000000.0", "2e20", "1e-7", "0.25e-9"])
         if c < 0.96:
             return r.choice(["true", "false"])
         return "(str abc)"
